@@ -50,7 +50,25 @@ def ppci_out(src, vec):
     return "\n".join(out) + "\n"
 
 
+NATIVE = None   # optimisation level: compare the ppci native executable instead of the IR
+
+
+def native_differs(src, d):
+    from vlib import native
+    st, out, rc = native.gcc_reference(src, d, "red")
+    if st != "ok":
+        return False
+    try:
+        exe = native.build_path_a(src, NATIVE, d, "red")
+    except Exception:
+        return False
+    kind, pout, prc = native.run_exe(exe, timeout=10)
+    return kind != "ok" or pout != out or prc != rc
+
+
 def differs(src, vec, d):
+    if NATIVE is not None:
+        return native_differs(src, d)
     g = gcc_out(src, vec, d)
     if g is None:
         return False
@@ -70,7 +88,7 @@ def reduce(src, vec):
         i = len(lines) - 1
         while i >= 0:
             ln = lines[i].strip()
-            if ln and not ln.startswith("return") and not ln.startswith("long entry") and ln not in ("}",) and "void report" not in ln:
+            if ln and not ln.startswith("return") and not ln.startswith("long entry") and not ln.startswith("long run_all") and not ln.startswith("long acc") and ln not in ("}",) and "void report" not in ln:
                 # try removing a single line, or a balanced brace block starting here
                 cand = None
                 if ln.endswith("{"):
@@ -99,10 +117,14 @@ if __name__ == "__main__":
         v = json.load(open(path))
         src = v["case"]["source"]
         vec = v["case"].get("args") or [0, 1, 2]
+        if "level" in v["case"]:
+            NATIVE = v["case"]["level"]
     else:
         src = open(path).read()
         vec = [int(x) for x in sys.argv[2:5]] or [0, 1, 2]
     out = reduce(src, vec)
     print(out)
+    if NATIVE is not None:
+        sys.exit(0)
     d = tempfile.mkdtemp()
     print("/* gcc:\n%s\nppci:\n%s*/" % (gcc_out(out, vec, d), ppci_out(out, vec)))
